@@ -640,6 +640,11 @@ def _breaks(text):
 def isolate_cause(case, pieces, workdir):
     """root-cause keys: every statement template (rebuilt by bash as a one-statement function) / variable line of
     the case that derails the filter on its own, in front of sentinel definitions"""
+    # controls: if a trivial definition already derails the filter the defect is global, not tied to a construct
+    if _breaks("vf_ctl () \n{ \n    :\n}\n"):
+        return ["global:trivial-function"]
+    if _breaks("VT_ctl=1\n"):
+        return ["global:trivial-assignment"]
     culprits = set()
     for p in pieces:
         if p["kind"] == "var" and _breaks(p["text"]):
@@ -677,6 +682,8 @@ def isolate_cause(case, pieces, workdir):
         for f in case["funcs"]:
             txt = next((p["text"] for p in pieces if p["kind"] == "func" and p["name"] == f["name"]), None)
             if txt is not None and _breaks(txt):
+                if _breaks(f"{f['name']} () \n{{ \n    :\n}}\n"):  # the name itself, not the body
+                    return ["function-name:" + ("".join(sorted(set(re.sub(r"\w", "", f["name"])))) or "identifier")]
                 return ["min:" + signature(minimise_body(f["body"], loc, workdir))]
         return ["not-isolated"]
     return sorted(culprits)
